@@ -127,6 +127,50 @@ theorem engReset_unwinds (fuel : Nat) : ∀ (e : Eng),
       · rw [i3, u4, hlen', hfr, hpath]; simp
       · intro j h1 h2; rw [i4 j h1 h2, hgf]
 
+/-- the engine after the render step of `Flush` -/
+def afterRender (env : Env) (cfg : Cfg) (e : Eng) : Eng :=
+  { e with vm := (vmRender env cfg.fuel (langOfEng e) e.vm).2 }
+
+/-- when the session has ended, a successful Flush leaves what `reset` makes of the engine after the render -/
+theorem flush_state (env : Env) (cfg : Cfg) (e : Eng) (hx : e.execd = true) (hex : e.exiting = true)
+    (out : Bytes) (hok : (flush env cfg e).1 = .ok out) :
+    (flush env cfg e).2 =
+      { (engReset ((afterRender env cfg e).vm.st.execPath.length + 2) (afterRender env cfg e)).2 with
+        exiting := false } := by
+  unfold flush afterRender at *
+  simp only [EM.bind_apply, EM.get_apply, hx, Bool.not_true, Bool.false_eq_true, if_false, EM.attempt_apply,
+    EM.vm_apply] at hok ⊢
+  rcases hr : vmRender env cfg.fuel (langOfEng e) e.vm with ⟨r, s1⟩
+  simp only [hr] at hok ⊢
+  cases r with
+  | ok page =>
+    simp [EM.bind_apply, hex]
+  | panic p => simp at hok
+  | err k m =>
+    by_cases hz : e.exit.length = 0
+    · simp [hz, EM.fail] at hok
+    · simp [EM.bind_apply, hex, hz]
+
+/-- **Flush unwinds at a graceful end.** When the session has ended (`exiting`), a successful Flush - whatever
+it rendered - leaves the empty path (the next request re-enters at the entry node), exactly the base cache scope,
+`exiting` cleared, and every flag other than TERMINATE and DIRTY (all client-defined flags) as it was after the
+render; provided the render left one cache scope per navigation level. -/
+theorem flush_unwinds (env : Env) (cfg : Cfg) (e : Eng) (hx : e.execd = true) (hex : e.exiting = true)
+    (hp : (afterRender env cfg e).vm.st.execPath ≠ []) (hfl : FlagsOk (afterRender env cfg e).vm.st)
+    (hl : (afterRender env cfg e).vm.ca.frames.length = (afterRender env cfg e).vm.st.execPath.length + 1)
+    (out : Bytes) (hok : (flush env cfg e).1 = .ok out) :
+    (flush env cfg e).2.vm.st.execPath = [] ∧
+    (flush env cfg e).2.vm.ca.frames
+      = (afterRender env cfg e).vm.ca.frames.drop (afterRender env cfg e).vm.st.execPath.length ∧
+    (flush env cfg e).2.exiting = false ∧
+    (∀ j, j ≠ Facts.terminateFlag → j ≠ Facts.dirtyFlag →
+      (flush env cfg e).2.vm.st.getFlag j = (afterRender env cfg e).vm.st.getFlag j) ∧
+    (flush env cfg e).2.vm.st.getFlag Facts.terminateFlag = .ok false := by
+  obtain ⟨_, r2, r3, r4, r5⟩ := engReset_unwinds ((afterRender env cfg e).vm.st.execPath.length + 2)
+    (afterRender env cfg e) hp (by omega) hfl hl
+  rw [flush_state env cfg e hx hex out hok]
+  exact ⟨r2, r3, rfl, r4, r5⟩
+
 /-- non-vacuity: a session two levels deep with three cache scopes and a client flag set -/
 example :
     let st : St := { (St.new 2) with execPath := [[0x72], [0x61]], flags := (St.new 2).flags.set 8 true }
